@@ -121,12 +121,45 @@ def section_aware_gate():
     return bad
 
 
+def _vo_digest():
+    import hashlib
+    h = hashlib.sha256()
+    for f in sorted(glob.glob(os.path.join(COQ, "*", "*.vo"))):
+        h.update(os.path.relpath(f, COQ).encode())
+        h.update(hashlib.sha256(open(f, "rb").read()).digest())
+    return h.hexdigest()
+
+
 def coqchk(pid):
-    """independent re-check of Props/<pid>.vo and everything it depends on; returns dict"""
-    rc, out = sh("timeout 3000 coqchk -silent -o -Q . SV SV.Props.%s 2>&1" % pid, cwd=COQ, timeout=3100)
-    m = re.search(r"\* Axioms:(.*?)\n\s*\n\* Constants", out, re.S)
-    axioms = m.group(1).strip() if m else "?"
-    return {"rc": rc, "axioms": axioms, "ok": rc == 0 and axioms == "<none>", "tail": out[-600:] if rc else ""}
+    """independent re-check (coqchk) of the compiled development.  coqchk re-checks every library a
+    module depends on, and it evaluates vm_compute proofs with its own slow reduction (Quadrature.v alone
+    takes 12 minutes), so ONE run over all twenty Props modules is made per state of the .vo files and
+    its result is cached in build/coqchk.json (keyed by a SHA-256 over all .vo files; file lock, so that
+    concurrent checks wait for the one that is running).  Returns dict for Props/<pid>."""
+    os.makedirs(BUILD, exist_ok=True)
+    cache = os.path.join(BUILD, "coqchk.json")
+    with open(os.path.join(BUILD, "coqchk.lock"), "w") as lk:
+        fcntl.flock(lk, fcntl.LOCK_EX)
+        digest = _vo_digest()
+        res = None
+        if os.path.exists(cache):
+            try:
+                res = json.load(open(cache))
+            except Exception:
+                res = None
+        if not res or res.get("digest") != digest:
+            mods = " ".join("SV.Props.C%02d" % i for i in range(1, 21) if os.path.exists(os.path.join(COQ, "Props", "C%02d.vo" % i)))
+            t0 = time.time()
+            rc, out = sh("timeout 14000 coqchk -silent -o -Q . SV %s 2>&1" % mods, cwd=COQ, timeout=14100)
+            m = re.search(r"\* Axioms:(.*?)\n\s*\n\* Constants", out, re.S)
+            res = {"digest": digest, "rc": rc, "axioms": m.group(1).strip() if m else "?", "modules": mods.split(),
+                   "seconds": round(time.time() - t0, 1), "tail": out[-600:] if rc else ""}
+            json.dump(res, open(cache, "w"), indent=1)
+        fcntl.flock(lk, fcntl.LOCK_UN)
+    covered = ("SV.Props.%s" % pid) in res.get("modules", [])
+    return {"rc": res["rc"], "axioms": res["axioms"], "ok": res["rc"] == 0 and res["axioms"] == "<none>" and covered,
+            "tail": res.get("tail", ""), "scope": "one coqchk run over all Props modules and everything they depend on",
+            "seconds": res.get("seconds"), "cached_for_vo_digest": res["digest"][:16]}
 
 
 def proof_obligations(pid):
